@@ -63,6 +63,24 @@ ReplaceAll(s, t, r) ==
   IN IF p = -1 THEN s
      ELSE Take(s, p) \o r \o ReplaceAll(Drop(s, p + Len(t)), t, r)
 
+\* The same two functions as one pass over the positions (a step per character:
+\* usable on strings with hundreds of occurrences; Str.tla: Laws checks that the
+\* two formulations agree on every pair).  t is not empty.
+RECURSIVE ReplaceScanFrom(_, _, _, _)
+ReplaceScanFrom(s, t, r, i) ==          \* i: 0-based position
+  IF i >= Len(s) THEN << >>
+  ELSE IF Occurs(s, t, i) THEN r \o ReplaceScanFrom(s, t, r, i + Len(t))
+  ELSE <<s[i + 1]>> \o ReplaceScanFrom(s, t, r, i + 1)
+ReplaceScan(s, t, r) == ReplaceScanFrom(s, t, r, 0)
+
+RECURSIVE SplitScanFrom(_, _, _, _)
+SplitScanFrom(s, t, i, b) ==            \* b: where the current part begins
+  IF i + Len(t) > Len(s) THEN <<SubSeq(s, b + 1, Len(s))>>
+  ELSE IF Occurs(s, t, i)
+       THEN <<SubSeq(s, b + 1, i)>> \o SplitScanFrom(s, t, i + Len(t), i + Len(t))
+       ELSE SplitScanFrom(s, t, i + 1, b)
+SplitScan(s, t) == IF s = << >> THEN << >> ELSE SplitScanFrom(s, t, 0, 0)
+
 RECURSIVE CountOcc(_, _)
 CountOcc(s, t) ==                  \* number of non-overlapping occurrences
   LET p == Find(s, t)
@@ -190,6 +208,13 @@ Pad(txt, w, mode) ==
        [] mode = "z" -> Rep(48, k) \o txt
        [] OTHER      -> Rep(32, k) \o txt
 
+\* a number under '0': the zeroes stand between the sign and the digits (the
+\* padded text is a numeral of the same number); text is padded as it is
+PadNum(txt, w, mode) ==
+  IF mode = "z" /\ txt # << >> /\ txt[1] = 45
+  THEN <<45>> \o Pad(Tail(txt), w - 1, "z")
+  ELSE Pad(txt, w, mode)
+
 RenderVal(v, hex) ==
   CASE v.k = "i" -> (IF hex THEN RenderHex(v.n) ELSE RenderInt(v.n))
     [] v.k = "b" -> (IF v.n < 0 /\ StripZ(v.ds) # <<0>> THEN <<45>> ELSE << >>)
@@ -247,18 +272,40 @@ ParseFmt(spec) ==                   \* the text behind '#'
 
 NoPiece == [ok |-> FALSE, txt |-> << >>]
 
+(* A placeholder that is no name of the environment is an expression.  The
+   model defines the expressions  n  and  n op m  (n, m decimal numerals of
+   at most four digits without a leading zero, op plus, minus or times), so that
+   '{7}' beyond the arguments of sprintf and '{1+1}' (which starts like the
+   name of an argument) have a value: the number, not an argument. *)
+IsNumeral(q) == /\ Len(q) \in 1..4 /\ AllDigits(q) /\ (Len(q) > 1 => q[1] # 48)
+ExprOps == {43, 45, 42}
+ExprVal(name) ==
+  LET P == {j \in 1..Len(name) : name[j] \in ExprOps}
+  IN IF P = {} THEN (IF IsNumeral(name) THEN [ok |-> TRUE, n |-> DigitsVal(name)]
+                                        ELSE [ok |-> FALSE, n |-> 0])
+     ELSE LET j == Min(P)
+              a == Take(name, j - 1)
+              b == Drop(name, j)
+          IN IF ~(IsNumeral(a) /\ IsNumeral(b)) THEN [ok |-> FALSE, n |-> 0]
+             ELSE [ok |-> TRUE,
+                   n  |-> CASE name[j] = 43 -> DigitsVal(a) + DigitsVal(b)
+                            [] name[j] = 45 -> DigitsVal(a) - DigitsVal(b)
+                            [] OTHER        -> DigitsVal(a) * DigitsVal(b)]
+
 Placeholder(content, env) ==        \* what is between '{' and '}'
   LET h    == IndexFrom(content, 35, 1)
       name == IF h = 0 THEN content ELSE Take(content, h - 1)
       f    == IF h = 0 THEN NoFmt ELSE ParseFmt(Drop(content, h))
       idx  == {i \in 1..Len(env) : env[i].name = name}
-  IN IF idx = {} \/ ~f.ok \/ f.d # -1 THEN NoPiece
-     ELSE LET v   == env[Min(idx)]
+      ex   == ExprVal(name)
+  IN IF (idx = {} /\ ~ex.ok) \/ ~f.ok \/ f.d # -1 THEN NoPiece
+     ELSE LET v   == IF idx # {} THEN env[Min(idx)]
+                     ELSE [k |-> "i", txt |-> << >>, n |-> ex.n, ds |-> << >>, name |-> name]
               txt == RenderVal(v, f.hex)
-          IN IF (f.hex /\ v.k = "s")
-                \/ (f.mode = "z" /\ v.k # "s" /\ txt[1] = 45)
+          IN IF f.hex /\ v.k = "s"
              THEN NoPiece
-             ELSE [ok |-> TRUE, txt |-> Pad(txt, f.w, f.mode)]
+             ELSE [ok |-> TRUE, txt |-> IF v.k = "s" THEN Pad(txt, f.w, f.mode)
+                                                     ELSE PadNum(txt, f.w, f.mode)]
 
 RECURSIVE SFrom(_, _, _)
 SFrom(tpl, env, i) ==               \* the text from position i on, interpolated
@@ -272,9 +319,24 @@ SFrom(tpl, env, i) ==               \* the text from position i on, interpolated
 
 S(tpl, env) == SFrom(tpl, env, 1)
 
+\* s(str, start): the text before position `start` stays as it is.  A negative
+\* start counts from the end; a position before the beginning is the
+\* beginning, one behind the end is the end (0-based, 0..Len).
+StartPos(n, start) == IF start >= 0 THEN (IF start > n THEN n ELSE start)
+                      ELSE (IF n + start < 0 THEN 0 ELSE n + start)
+SAt(tpl, env, start) ==
+  LET p == StartPos(Len(tpl), start)
+      x == SFrom(tpl, env, p + 1)
+  IN [ok |-> x.ok, txt |-> Take(tpl, p) \o x.txt]
+
 \* sprintf(fmt, a0, a1, ...): the name of argument number i is the decimal
 \* text of i ({1} is the second argument and {10} the eleventh)
 ArgNamesOK(env) == \A i \in 1..Len(env) : env[i].name = RenderInt(i - 1)
+\* ... the first n values are the arguments; the others are variables of the
+\* caller, which a placeholder calls by their names (no numeral is a name)
+ArgNamesOK2(env, n) ==
+  \A i \in 1..Len(env) : IF i <= n THEN env[i].name = RenderInt(i - 1)
+                                   ELSE env[i].name # << >> /\ ~IsDigit(env[i].name[1])
 
 \* the text of a template given as segments (names[var] = name of a value)
 FmtText(w, mode, hex) ==
